@@ -125,7 +125,7 @@ pub fn probe(u: &mut Unstructured) -> Result<Probe> {
 pub fn ops(u: &mut Unstructured, max: usize) -> Result<Vec<Op>> {
     let mut v = Vec::new();
     while v.len() < max && !u.is_empty() {
-        match u.int_in_range(0..=15u8)? {
+        match u.int_in_range(0..=16u8)? {
             0 => v.push(Op::First),
             1 => v.push(Op::Last),
             2..=3 => {
@@ -143,6 +143,7 @@ pub fn ops(u: &mut Unstructured, max: usize) -> Result<Vec<Op>> {
             12 => v.push(Op::Eq(probe(u)?)),
             13 => v.push(Op::Reset),
             14 => v.push(Op::Current),
+            15 => v.push(Op::Swap),
             _ => v.push(Op::CloneSwitch),
         }
     }
